@@ -66,6 +66,38 @@ pub fn run<C: NatCtx>(v: &mut Env<C>) {
             });
         }
     }
+    // key generation and util::random_ciphertexts from RNG bytes (num-bigint, sequential build)
+    if bigint {
+        let need = 4 * ((q.bits() as usize + 31) / 32);
+        for i in 0..(if v.small { if quick { 12 } else { 120 } } else if quick { 3 } else { 20 }) {
+            let tape = v.h.rng.bytes(need * 40);
+            let (c2, tp) = (ctx.clone(), tape.clone());
+            let out = v.case("sk_gen", vec![b(&tape)], || {
+                let (r, used) = with_byte_tape(&tp, || {
+                    let k = PrivateKey::gen(&c2);
+                    (C::x_val(vh::sk_value(&k)), C::e_val(k.pk_element()))
+                });
+                match r { Some((x, y)) => Out::Ok(l(vec![Val::Nat(x), Val::Nat(y), nu(used as u64)])), None => Out::Panic }
+            });
+            if let Out::Ok(Val::List(items)) = &out {
+                if let (Val::Nat(x), Val::Nat(y)) = (&items[0], &items[1]) {
+                    v.h.check(*x < q && *y == g.modpow(x, &p), || format!("PrivateKey::gen returned sk = {:x}, pk = {:x}: not a key pair on {}", x, y, tok));
+                }
+            } else {
+                v.h.check(false, || format!("PrivateKey::gen panicked on {}", tok));
+            }
+            #[cfg(not(feature = "rayon"))]
+            {
+                let nn = i % 4;
+                let tape = v.h.rng.bytes(need * 40 * (2 * nn + 1));
+                let (c2, tp) = (ctx.clone(), tape.clone());
+                v.case("random_cts", vec![nu(nn as u64), b(&tape)], || {
+                    let (r, used) = with_byte_tape(&tp, || strand::util::random_ciphertexts(nn, &c2));
+                    match r { Some(cs) => Out::Ok(l(vec![p_shuffle::vcts(&cs), nu(used as u64)])), None => Out::Panic }
+                });
+            }
+        }
+    }
     // gen_permutation from RNG bytes (context-independent; run once per kind on the first small set)
     if v.small && p == big(23) {
         for nn in [0usize, 1, 2, 3, 5, 8, 33, 200] {
